@@ -350,6 +350,7 @@ func runC17(p *core.Prog, r *core.Report) {
 		r.Fail("C17-R1", "anchor ResolveUrlPath", "-", "function not found")
 		return
 	}
+	fn = p.Inl(fn) // a private method or helper that holds the body is seen in place
 	ctx := &c17ctx{p: p, r: r, bind: map[*ssa.Parameter]ssa.Value{}, argOf: map[*ssa.Call]ssa.Value{}}
 	nJoin := 0
 	for i, ret := range sx.Returns(fn) {
@@ -408,6 +409,39 @@ func runC17(p *core.Prog, r *core.Report) {
 			continue
 		}
 		seen[cl] = true
+		// what is cleaned is the URL path itself, at most with a slash put in front: nothing is cut out of it or replaced
+		// before (names such as ".a" or "..b" are ordinary segments and must come through unchanged)
+		if sx.CalleeName(cl) == "path.Clean" {
+			via := ""
+			var walk func(v ssa.Value, d int)
+			seenV := map[ssa.Value]bool{}
+			walk = func(v ssa.Value, d int) {
+				v = sx.Unspill(v)
+				if v == nil || seenV[v] || d > 10 {
+					return
+				}
+				seenV[v] = true
+				switch x := v.(type) {
+				case *ssa.Phi:
+					for _, e := range x.Edges {
+						walk(e, d+1)
+					}
+				case *ssa.BinOp:
+					if x.Op == token.ADD {
+						walk(x.X, d+1)
+						walk(x.Y, d+1)
+					}
+				case *ssa.Call:
+					if _, isB := x.Call.Value.(*ssa.Builtin); !isB {
+						via = short(sx.CalleeName(x)) + " at " + p.Pos(x.Pos())
+					}
+				case *ssa.Slice:
+					via = "a slice of the path at " + p.Pos(x.Pos())
+				}
+			}
+			walk(ctx.argOf[cl], 0)
+			r.Check(via == "", "C17-R2", "argument of path.Clean in "+fnName(cl.Parent())+" is the URL path itself", p.Pos(cl.Pos()), "the parameter, or \"/\" + the parameter", "the path handed to path.Clean passes through "+via+" first: segments are altered before cleaning (a dot-free path no longer resolves to the plain join with the base)")
+		}
 		ok, why := rootedAt(p, ctx.argOf[cl], cl, 0)
 		r.Check(ok, "C17-R2", "argument of "+short(sx.CalleeName(cl))+" in "+fnName(cl.Parent())+" is rooted", p.Pos(cl.Pos()), "starts with '/' on every path", why+": path.Clean keeps leading '..' elements of a non-rooted path, the join would climb out of the base")
 	}
